@@ -40,6 +40,24 @@ theorem c08_model (e : E) (hw : WellPar e) (hn : noParConcatUnderConcat e) (hr :
     (parse (render e)).map explainModel = some (refExplain e) := by
   rw [pratt_roundtrip e hw, Option.map_some, explain_is_reference e hw hn hr]
 
+/-- Unique reading: two well-parenthesised trees with the same text denote the same AST — the precedence climb leaves no
+text of the fragment with two readings (a corollary of the round trip, for trees of any depth). `erase` itself is not
+injective (`( ( a ) )` and `( a )` carry the same single `Parenthesized` mark), so equality is of the denoted ASTs. -/
+theorem wellpar_unambiguous (e₁ e₂ : E) (h₁ : WellPar e₁) (h₂ : WellPar e₂) (ht : render e₁ = render e₂) :
+    erase e₁ = erase e₂ := by
+  have a := pratt_roundtrip e₁ h₁
+  rw [ht, pratt_roundtrip e₂ h₂] at a
+  exact (Option.some.inj a).symm
+
+/-- … and therefore print the same reference tree: EXPLAIN is a function of the text, not of the tree one had in mind. -/
+theorem explain_of_text (e₁ e₂ : E) (h₁ : WellPar e₁) (h₂ : WellPar e₂)
+    (n₁ : noParConcatUnderConcat e₁) (n₂ : noParConcatUnderConcat e₂) (r₁ : litsInRange e₁) (r₂ : litsInRange e₂)
+    (ht : render e₁ = render e₂) : refExplain e₁ = refExplain e₂ := by
+  have a := c08_model e₁ h₁ n₁ r₁
+  rw [ht, c08_model e₂ h₂ n₂ r₂] at a
+  exact (Option.some.inj a).symm
+
+
 /-
 `parse_only_wellpar : parse ts = some a → ∃ e, WellPar e ∧ render e = ts ∧ erase e = a`
 is FALSE for the faithful model (and for the real parser), hence not stated: `parseInfixExpression`'s `case token.NOT`
@@ -84,5 +102,12 @@ example : refExplain ex1 =
 
 example : (parse (render ex2)).map explainModel = some (refExplain ex2) :=
   c08_model ex2 (by decide) (by decide) (by decide)
+
+/-- `( ( a ) ) + b` and `( a ) + b` are different trees with different texts but one AST; `wellpar_unambiguous` is about
+equal texts: its premises hold of `ex1` with itself, and the two readings of `a + b * c` never both satisfy `WellPar`. -/
+example : erase (.bin .plus (.par (.par (.id "a"))) (.id "b")) = erase (.bin .plus (.par (.id "a")) (.id "b")) := by decide
+example : render (.bin .mul (.bin .plus (.id "a") (.id "b")) (.id "c")) = render (.bin .plus (.id "a") (.bin .mul (.id "b") (.id "c")))
+    ∧ WellPar (.bin .plus (.id "a") (.bin .mul (.id "b") (.id "c")))
+    ∧ ¬ WellPar (.bin .mul (.bin .plus (.id "a") (.id "b")) (.id "c")) := by decide
 
 end DC.Props.C08
